@@ -64,6 +64,7 @@ Lx == [
   \* partials
   Pp   |-> Tag("partial", "p", <<>>, "{{>p}}"),        Ppsp |-> Tag("partial", "p", <<>>, "{{> p }}"),
   Pm   |-> Tag("partial", "m", <<>>, "{{>m}}"),        Pmm  |-> Tag("partial", "mm", <<>>, "{{>mm}}"),
+  Pmmc |-> Tag("partial", "mmc", <<>>, "{{>mmc}}"),
   Psec |-> Tag("partial", "sec", <<>>, "{{>sec}}"),    Pout |-> Tag("partial", "outer", <<>>, "{{>outer}}"),
   Prec |-> Tag("partial", "rec", <<>>, "{{>rec}}"),    Pmut |-> Tag("partial", "mut1", <<>>, "{{>mut1}}"),
   Pno  |-> Tag("partial", "nope", <<>>, "{{>nope}}"),  Pbad |-> Tag("partial", "bad", <<>>, "{{>bad}}"),
@@ -104,6 +105,7 @@ Partials == [
   p     |-> <<"LBr", "Vs", "RBr">>,                        \* "[{{s}}]"
   m     |-> <<"Vs", "NL", "Vk", "NL">>,                    \* two lines
   mm    |-> <<"X", "NL", "NL", "X", "NL">>,                \* blank interior line
+  mmc   |-> <<"X", "CRNL", "CRNL", "X", "CRNL">>,          \* the same with CRLF line ends
   sec   |-> <<"Oa", "NL", "Vs", "Vk", "NL", "Ca", "NL">>,  \* standalone tags inside a partial
   outer |-> <<"X", "NL", "Pm", "NL", "X", "NL">>,          \* nested standalone partial: indentation composes
   rec   |-> <<"X", "Prec">>,                               \* self recursion -> depth limit
